@@ -85,6 +85,32 @@ def run(c):
                 c.report("recalculating a calculated document changes it (%s)" % where,
                          {"document": d, "result": f, "first": r0["go_raw"], "second": r1["go_raw"],
                           "clause": "serialising the result, parsing it back and calculating again yields byte-identical JSON"}, finding_id=fid)
+    # ---- normalisers: codes and series with runs of separators / symbols must settle in one calculation ----
+    junk = []
+    alphabet = ["A", "b", "1", "7", " ", " ", "-", ".", "/", "#", "_", ":", "$", "  ", " - ", "\t"]
+    for d in docs[: (600 if quick else 20000)]:
+        d2 = json.loads(json.dumps(d))
+        mk = lambda: "X" + "".join(c.rng.choice(alphabet) for _ in range(c.rng.randint(2, 8))) + "9"
+        d2["series"] = mk()
+        d2["code"] = mk()
+        if c.rng.random() < 0.5:
+            d2["supplier"].setdefault("addresses", [{"locality": "M", "country": "ES"}])[0]["code"] = mk()
+        for l in d2["lines"][:2]:
+            l["item"]["ref"] = mk()
+        d2.setdefault("preceding", [{"code": mk(), "series": mk(), "issue_date": "2022-01-01"}])
+        junk.append(d2)
+    fx = run_go(["c04 fix " + w(json.dumps(d)) for d in junk])
+    for d, f in zip(junk, fx):
+        c.count("normaliser-fixpoint", 1, json.dumps(d, sort_keys=True))
+        v = parse_wire(f)
+        if v and isinstance(v[0], list) and v[0] and v[0][0] == b"diff":
+            r0 = cg.run3([d])[0]
+            if not is_err(r0["go"]) and cg.excess_fixed(d, r0["py"]):
+                continue
+            if shown < 6:
+                shown += 1
+                c.report("normalisation is not idempotent: recalculating changes %s" % v[0][2].decode(),
+                         {"document": d, "result": f, "clause": "serialising, parsing back and calculating again yields byte-identical JSON (normalisers are idempotent)"})
     pays = c20.gen_payments(c, c.rng, n // 4)
     fx = run_go(["c04 fix " + w(json.dumps(p)) for p, _ in pays])
     for (p, _), f in zip(pays, fx):
